@@ -6,7 +6,9 @@ import (
 	"errors"
 	"fmt"
 	"net"
+	"runtime"
 	"sync"
+	"time"
 
 	"github.com/uhppoted/uhppote-core/uhppote"
 )
@@ -16,6 +18,7 @@ type Invocation struct {
 	Method  string // Broadcast | BroadcastTo | SendUDP | SendTCP | Listen
 	Addr    string
 	Request []byte // copy taken on entry
+	AtSend  []byte // copy taken at the moment the real driver would write to its socket (see MemDriver.Serialize)
 }
 
 // Script decides what the (in-memory) network answers to a request.
@@ -30,6 +33,11 @@ type MemDriver struct {
 	Handed   [][]byte // every buffer handed to the library (so that the harness can scribble over them later)
 	Consumed int      // datagrams consumed by the last call
 	Scribble bool     // overwrite the request slice before returning
+	// Serialize makes the driver behave like the real one on a fixed bind port: invocations queue on a guard, and the
+	// request slice is read when the call gets its turn (after Hold), not when it arrives.
+	Serialize bool
+	Hold      time.Duration
+	guard     sync.Mutex
 
 	listenCB   func([]byte)
 	listenDone chan any
@@ -41,6 +49,17 @@ var ErrTimeout = errors.New("i/o timeout (scripted)")
 
 func (d *MemDriver) record(method string, addr fmt.Stringer, request []byte) Invocation {
 	inv := Invocation{Method: method, Addr: addr.String(), Request: append([]byte{}, request...)}
+	if d.Serialize {
+		d.guard.Lock()
+		if d.Hold > 0 {
+			time.Sleep(d.Hold)
+		} else {
+			runtime.Gosched()
+		}
+		inv.AtSend = append([]byte{}, request...)
+	} else {
+		inv.AtSend = inv.Request
+	}
 	d.mu.Lock()
 	d.Log = append(d.Log, inv)
 	d.mu.Unlock()
@@ -67,6 +86,9 @@ func (d *MemDriver) done(request []byte) {
 		for i := range request {
 			request[i] = 0xee
 		}
+	}
+	if d.Serialize {
+		d.guard.Unlock()
 	}
 }
 
